@@ -139,6 +139,10 @@ def step (w : W) (toks : List String) : W × String :=
     (w, match huffDecodeBuf (parseHex h) with
         | .ok b => "ok " ++ toHex b.bytes
         | r => showFail r)
+  | ["hrt", h] =>
+    (w, match huffDecodeBuf (huffEncode Gen.codes (parseHex h)) with
+        | .ok b => "ok " ++ toHex b.bytes
+        | r => showFail r)
   | ["utf8", h] => (w, if validUtf8 (parseHex h) then "1" else "0")
   -- HeaderTable
   | ["tnew", id] => ({ w with tables := aset w.tables id.toNat! newTable }, "ok | " ++ showTable newTable)
